@@ -64,9 +64,67 @@ fn show_out(b: &[u8]) -> String {
     crate::util::truncate_str(&String::from_utf8_lossy(b), 600)
 }
 
+/// what the source program means (from refsem), in replayable form
+#[derive(Clone, Debug)]
+pub struct Expected {
+    pub stdout: Vec<u8>,
+    /// Ok(end) or the reason the run has no defined meaning
+    pub end: Result<End, String>,
+}
+
+pub fn end_to_string(e: &End) -> String {
+    match e {
+        End::Normal => "Normal".into(),
+        End::Failed(FailKind::DivZero) => "Failed(DivZero)".into(),
+        End::Failed(FailKind::Index) => "Failed(Index)".into(),
+        End::Failed(FailKind::Missing) => "Failed(Missing)".into(),
+    }
+}
+
+fn end_from_string(s: &str) -> Option<End> {
+    Some(match s {
+        "Normal" => End::Normal,
+        "Failed(DivZero)" => End::Failed(FailKind::DivZero),
+        "Failed(Index)" => End::Failed(FailKind::Index),
+        "Failed(Missing)" => End::Failed(FailKind::Missing),
+        _ => return None,
+    })
+}
+
+impl Expected {
+    pub fn of(p: &GProg) -> Expected {
+        let r = refsem::run(p, MAX_STEPS);
+        Expected {
+            stdout: r.stdout,
+            end: r.end,
+        }
+    }
+    pub fn to_json(&self) -> Value {
+        match &self.end {
+            Ok(e) => json!({"stdout": String::from_utf8_lossy(&self.stdout), "end": end_to_string(e)}),
+            Err(why) => json!({"skip": why}),
+        }
+    }
+    pub fn from_json(v: &Value) -> Expected {
+        if let Some(why) = v["skip"].as_str() {
+            return Expected {
+                stdout: vec![],
+                end: Err(why.to_string()),
+            };
+        }
+        Expected {
+            stdout: v["stdout"].as_str().unwrap_or("").as_bytes().to_vec(),
+            end: v["end"].as_str().and_then(end_from_string).ok_or_else(|| "no expected end".to_string()),
+        }
+    }
+}
+
 /// Compare what the source means with what the emitted Go does.
 pub fn compare(p: &GProg, go_text: &str, prop: &str) -> Verdict {
-    let r = refsem::run(p, MAX_STEPS);
+    compare_expected(&Expected::of(p), go_text, prop)
+}
+
+pub fn compare_expected(r: &Expected, go_text: &str, prop: &str) -> Verdict {
     let expected_end = match &r.end {
         Ok(e) => e.clone(),
         Err(why) => return Verdict::Skip(format!("refsem:{}", why.split(':').next().unwrap_or(why))),
@@ -76,7 +134,7 @@ pub fn compare(p: &GProg, go_text: &str, prop: &str) -> Verdict {
         GoCheck::Unsupported(u) => return Verdict::Skip(format!("minigo:{u}")),
         GoCheck::Rejected(errs) => {
             // C02's domain; other checks do not judge programs whose Go does not build
-            return if prop == "C02" || prop == "C01" {
+            return if prop == "C02" {
                 Verdict::Fail(
                     format!("{prop}|go-rejected|{}", errs[0].rule),
                     describe_go_errors(&errs, go_text),
@@ -110,7 +168,7 @@ pub fn compare(p: &GProg, go_text: &str, prop: &str) -> Verdict {
     };
     if actual_end != expected_end {
         return Verdict::Fail(
-            format!("{prop}|end|{:?}->{:?}", expected_end, actual_end),
+            format!("{prop}|end|{}->{}", end_to_string(&expected_end), end_to_string(&actual_end)),
             format!(
                 "the source ends {:?}, the Go program ends {:?} ({:?})\nexpected stdout:\n{}\nactual stdout:\n{}",
                 expected_end,
